@@ -31,6 +31,15 @@ def proof_stage(rep, prop, pre_broken=None):
         rep.cov["discharged"] = 0
         return False, {"file": pv, "lemma": "Print Assumptions", "error": "axioms: %s\n%s" % (axioms, aout[-1500:])}
     rep.assumptions.append("Print Assumptions: %d theorems closed under the global context, no axioms" % closed)
+    if rep.tier == "thorough":
+        # independent re-check of the compiled theory (and everything it depends on) with coqchk
+        rc, out, dt = core.run(["coqchk", "-o", "-silent", "-Q", ".", "RV", "RV.Props.%s" % prop], cwd=core.COQ, timeout=3000)
+        okc = rc == 0 and "* Axioms: <none>" in out and "type-in-type: <none>" in out and "unsafe (co)fixpoints: <none>" in out and "positivity is assumed: <none>" in out
+        rep.cov["coqchk"] = {"ok": okc, "seconds": round(dt, 1)}
+        if not okc:
+            rep.cov["discharged"] = 0
+            return False, {"file": pv, "lemma": "coqchk", "error": out[-2000:]}
+        rep.assumptions.append("coqchk -o: re-checked, Axioms: <none>")
     return True, None
 
 
